@@ -546,6 +546,46 @@ def build_jobs(root: str, pids: List[str]) -> List[tuple]:
             break
     for pid in pids:
         jobs.append(("benign", "reformat-all-files(ast.unparse)", pid, root, rt))
+    # whole-package benign variant: every local variable of every function consistently renamed (the suite passes on it)
+    from .variants import rename_module
+
+    rn = {}
+    for dp, dn, fn in os.walk(os.path.join(root, "tawazi")):
+        for f_ in fn:
+            if f_.endswith(".py"):
+                rel = os.path.relpath(os.path.join(dp, f_), root)
+                try:
+                    rn[rel] = rename_module(_read(root, rel), rel)
+                except SyntaxError:
+                    rn = None
+                    break
+        if rn is None:
+            break
+    for pid in pids:
+        jobs.append(("benign", "rename-all-locals(symtable)", pid, root, rn))
+    # two more whole-package rewrites the suite passes on: every if/else with its arms swapped under the negated test, and every
+    # binary comparison written the other way round (not in node/extend.py: there the operand order IS the behaviour - it decides
+    # whose __lt__/__eq__ runs - and REF-OPS rightly reports it)
+    from .variants import mirror_comparisons, reorder_methods, swap_if_else
+
+    for label, fn_, skip in (("swap-every-if-else", swap_if_else, ()), ("mirror-every-comparison", mirror_comparisons, (X,)),
+                             ("methods-sorted-by-name", reorder_methods, ())):
+        ov: Optional[Dict[str, str]] = {}
+        for dp, dn, fn in os.walk(os.path.join(root, "tawazi")):
+            for f_ in fn:
+                if f_.endswith(".py"):
+                    rel = os.path.relpath(os.path.join(dp, f_), root)
+                    if rel in skip:
+                        continue
+                    try:
+                        ov[rel] = fn_(_read(root, rel))
+                    except SyntaxError:
+                        ov = None
+                        break
+            if ov is None:
+                break
+        for pid in pids:
+            jobs.append(("benign", label, pid, root, ov))
     seeded = os.path.join(VERIF_DIR, "seeded")
     if os.path.isdir(seeded):
         for sid in sorted(os.listdir(seeded)):
